@@ -14,7 +14,7 @@ inductive JKind where
   deriving DecidableEq, Repr, Inhabited
 
 inductive MKind where
-  | lea | mov | addi8 | movi32 | cmpi16
+  | lea | mov | addi8 | movi32 | cmpi16 | ldeax | steax | ldrax
   deriving DecidableEq, Repr, Inhabited
 
 inductive AKind where
@@ -36,6 +36,21 @@ def MKind.shape (arch : Arch) : MKind → MShape
   | .addi8  => { lead := [0x83#8, 0x05#8], imm := [0x12#8] }
   | .movi32 => { lead := [0xC7#8, 0x05#8], imm := [0x44#8, 0x33#8, 0x22#8, 0x11#8] }
   | .cmpi16 => { lead := [0x66#8, 0x81#8, 0x3D#8], imm := [0x34#8, 0x12#8] }
+  | .ldeax  => { lead := [0x8B#8, 0x05#8], imm := [] }                                   -- mov eax,[L+d]
+  | .steax  => { lead := [0x89#8, 0x05#8], imm := [] }                                   -- mov [L+d],eax
+  | .ldrax  => { lead := (if arch = .x64 then [0x48#8] else []) ++ [0x8B#8, 0x05#8], imm := [] }   -- mov rax,[L+d] (eax in 32-bit mode)
+
+/-- the same menu with an absolute memory operand: lea zax,[A] / mov ecx,[A] / add dword [A],0x12 / mov dword [A],0x11223344 / cmp word [A],0x1234 -/
+def MKind.ashape (arch : Arch) : MKind → AShape
+  | .lea    => { pp := [], rex := if arch = .x64 then some 0x48#8 else none, opc := [0x8D#8], opReg := 0, imm := [], isLea := true }
+  | .mov    => { pp := [], rex := none, opc := [0x8B#8], opReg := 1, imm := [], isLea := false }
+  | .addi8  => { pp := [], rex := none, opc := [0x83#8], opReg := 0, imm := [0x12#8], isLea := false }
+  | .movi32 => { pp := [], rex := none, opc := [0xC7#8], opReg := 0, imm := [0x44#8, 0x33#8, 0x22#8, 0x11#8], isLea := false }
+  | .cmpi16 => { pp := [0x66#8], rex := none, opc := [0x81#8], opReg := 7, imm := [0x34#8, 0x12#8], isLea := false }
+  | .ldeax  => { pp := [], rex := none, opc := [0x8B#8], opReg := 0, imm := [], isLea := false, moffs := some (0xA1#8, 4) }
+  | .steax  => { pp := [], rex := none, opc := [0x89#8], opReg := 0, imm := [], isLea := false, moffs := some (0xA3#8, 4) }
+  | .ldrax  => { pp := [], rex := if arch = .x64 then some 0x48#8 else none, opc := [0x8B#8], opReg := 0, imm := [], isLea := false,
+                 moffs := some (0xA1#8, if arch = .x64 then 8 else 4) }
 
 /-- menu: b / bl / b.eq / cbz x1 / tbz w2,#3 / adr x3 / adrp x4 / ldr x5,[L,#a] (opcode word with a zero field) -/
 def AKind.opcode : AKind → BitVec 32
@@ -63,6 +78,7 @@ inductive Op where
   | relocate (base : BitVec 64)
   | jmpAbs (k : JKind) (opt : FormOpt) (target : BitVec 64)
   | a64Abs (k : AKind) (target : BitVec 64)
+  | memAbs (k : MKind) (at_ : AddrT) (addr : BitVec 64)
   deriving Repr, Inhabited
 
 /-- one operation of the public API on the model -/
@@ -84,6 +100,7 @@ def step (s : State) : Op → State × Err
   | .relocate b => let r := relocate s b; (r.1, r.2.1)
   | .jmpAbs k opt t => if s.arch = .a64 then (s, .invalidInstruction) else x86JmpAbs s (k.shape s.arch) opt t
   | .a64Abs k t => if s.arch ≠ .a64 then (s, .invalidInstruction) else a64RelAbs s k.opcode k.kind t
+  | .memAbs k a t => if s.arch = .a64 then (s, .invalidInstruction) else x86MemAbs s (k.ashape s.arch) a t
 
 /-- run a program -/
 def run (s : State) (ops : List Op) : State := ops.foldl (fun s op => (step s op).1) s
